@@ -504,6 +504,41 @@ def _r06_5_loop_prefill(ctx, prog, crate, pe, bc, sl, rs):
                       "pointer offset is %s" % sorted(z.label() for z in x.prov.op_src(c.args[1])), c.line())
 
 
+def _r06_5_base_pointer(ctx, pe, bc, grow):
+    """The slot of call `index` is the `index`-th entry *appended* by this call: the base pointer handed to the task closure
+    is vec.as_mut_ptr().add(old_len) with old_len = vec.len() read before the vector grows (or the start of the spare
+    capacity / of the tail slice), taken after the last call that can reallocate. A base without the old length makes the
+    calls overwrite the entries already in the vector and leaves the appended ones empty."""
+    src = pe.prov.op_src(bc.args[2])
+    calls = [pe.call_at(x.b) for x in src if x.kind == "call"]
+    calls = [c for c in calls if c is not None]
+    names = {c.callee for c in calls}
+    amp = [c for c in calls if c.callee == "std::vec::Vec::as_mut_ptr"]
+    adds = [c for c in calls if c.callee.rsplit("::", 1)[-1] in ("add", "offset", "wrapping_add") and "ptr" in c.callee]
+    spare = [c for c in calls if c.callee == "std::vec::Vec::spare_capacity_mut"]
+    tail = [c for c in calls if c.callee.endswith("::index_mut") or c.callee.endswith("::get_unchecked_mut") or c.callee.endswith("::split_at_mut")]
+    key = ["par_extend", "base-is-as_mut_ptr.add(old_len)"]
+    if spare and not amp:
+        # base = start of the spare capacity, taken before the new length is set
+        ctx.check(all(pe.dominates(c.bb, grow.bb) for c in spare), "R06.5", key,
+                  "the base pointer is the spare capacity's start but is taken after the length was set", spare[0].line())
+        return
+    if not ctx.check(len(amp) == 1 and (len(adds) == 1 or tail), "R06.5", key,
+                     "the task closure's base pointer derives from %s: expected vec.as_mut_ptr().add(old_len) - without the old "
+                     "length the calls overwrite the entries already in the vector" % sorted(n.rsplit("::", 2)[-2] + "::" + n.rsplit("::", 1)[-1] for n in names),
+                     bc.line()):
+        return
+    if adds:
+        off = pe.prov.op_src(adds[0].args[1])
+        lens = [pe.call_at(x.b) for x in off if x.kind == "call" and x.a == "std::vec::Vec::len"]
+        recv = {x.label() for c_ in lens for x in pe.prov.op_src(c_.args[0])}
+        other = [x.label() for x in off if (x.kind == "param" and x.label() not in recv) or x.kind == "binop" or
+                 (x.kind == "const" and not x.a.startswith("0_"))]
+        ok = len(lens) == 1 and not other and pe.dominates(lens[0].bb, grow.bb) and lens[0].bb != grow.bb
+        ctx.check(ok, "R06.5", key, "the base pointer's offset derives from %s, expected exactly the vector's length read before it "
+                  "grows" % sorted(x.label() for x in off), adds[0].line())
+
+
 def _r06_5_task_closure(ctx, prog, pe):
     cls = [x for x in prog.children(pe) if x.kind == "Closure"]
     task = [x for x in cls if any(c.callee in ("std::ptr::mut_ptr::write", "std::ptr::write") for c in x.live_calls())]
@@ -553,6 +588,7 @@ def _r06_5_resize_with(ctx, prog, crate, pe, bc, rw):
     amp = [c for c in pe.live_calls() if c.callee == "std::vec::Vec::as_mut_ptr"]
     ctx.check(len(amp) == 1 and pe.dominates(rw.bb, amp[0].bb), "R06.5", ["par_extend", "base-pointer-after-resize"],
               "the base pointer is taken before the vector may have been reallocated by the resize", (amp[0] if amp else rw).line())
+    _r06_5_base_pointer(ctx, pe, bc, rw)
     _r06_5_task_closure(ctx, prog, pe)
 
 
@@ -629,7 +665,7 @@ def r06_5(ctx, prog, crate):
         for c in adds:
             ctx.check({s2.label() for s2 in x.prov.op_src(c.args[1])} == {idx}, "R06.5", ["par_extend", "offset-is-own-index"],
                       "pointer offset is %s" % sorted(s2.label() for s2 in x.prov.op_src(c.args[1])), c.line())
-    # base pointer = as_mut_ptr().add(old_len)
+    _r06_5_base_pointer(ctx, pe, bc[0], sl[0])
     return
 
 
